@@ -144,6 +144,15 @@ func (n *Net) Pipe(name string) (*Conn, *Conn) {
 	return l.Ends[0], l.Ends[1]
 }
 
+// PacketPipe is Pipe with datagram semantics: one Read returns one Write.
+func (n *Net) PacketPipe(name string) (*Conn, *Conn) {
+	n.mu.Lock()
+	defer n.mu.Unlock()
+	id := len(n.links)
+	l := n.newLink(name, true, &net.UDPAddr{IP: net.IPv4(10, 0, 0, 1), Port: 40000 + id}, &net.UDPAddr{IP: net.IPv4(10, 0, 0, 2), Port: 53})
+	return l.Ends[0], l.Ends[1]
+}
+
 func (n *Net) Links() []*Link { return n.links }
 
 func (c *Conn) Link() *Link { return c.link }
